@@ -648,7 +648,7 @@ def find_center(IM, center='image_center', square=False, verbose=False,
                'is deprecated, use abel.tools.center.find_origin() instead.')
     if square:
         _deprecate('Argument "square" has no effect and is deprecated.')
-    return find_origin(IM, center, verbose, **kwargs)
+    return find_origin(IM, center, verbose=verbose, **kwargs)
 
 
 def find_center_by_center_of_mass(IM, verbose=False, round_output=False,
@@ -658,7 +658,8 @@ def find_center_by_center_of_mass(IM, verbose=False, round_output=False,
     _deprecate('abel.tools.center.find_center_by_center_of_mass() '
                'is deprecated, use '
                'abel.tools.center.find_origin_by_center_of_mass() instead.')
-    return find_origin_by_center_of_mass(IM, verbose, round_output, **kwargs)
+    return find_origin_by_center_of_mass(IM, verbose=verbose,
+                                         round_output=round_output, **kwargs)
 
 
 def find_center_by_convolution(IM, **kwargs):
@@ -675,7 +676,7 @@ def find_center_by_center_of_image(IM, verbose=False, **kwargs):
     _deprecate('abel.tools.center.find_center_by_center_of_image() '
                'is deprecated, use '
                'abel.tools.center.find_origin_by_center_of_image() instead.')
-    return find_origin_by_center_of_image(IM, verbose, **kwargs)
+    return find_origin_by_center_of_image(IM, verbose=verbose, **kwargs)
 
 
 def find_center_by_gaussian_fit(IM, verbose=False, round_output=False,
@@ -684,7 +685,8 @@ def find_center_by_gaussian_fit(IM, verbose=False, round_output=False,
     _deprecate('abel.tools.center.find_center_by_gaussian_fit() '
                'is deprecated, use '
                'abel.tools.center.find_origin_by_gaussian_fit() instead.')
-    return find_origin_by_gaussian_fit(IM, verbose, round_output, **kwargs)
+    return find_origin_by_gaussian_fit(IM, verbose=verbose,
+                                       round_output=round_output, **kwargs)
 
 
 def find_image_center_by_slice(IM, slice_width=10, radial_range=(0, -1),
@@ -693,4 +695,5 @@ def find_image_center_by_slice(IM, slice_width=10, radial_range=(0, -1),
     _deprecate('abel.tools.center.find_image_center_by_slice() '
                'is deprecated, use '
                'abel.tools.center.find_origin_by_slice() instead.')
-    return find_origin_by_slice(IM, slice_width, radial_range, axis, **kwargs)
+    return find_origin_by_slice(IM, axes=axis, slice_width=slice_width,
+                                radial_range=radial_range, **kwargs)
